@@ -130,7 +130,7 @@ theorem C07_partial (s : RStore) (cand : RoomNode) (g : candGuard s cand = true)
 /-- the same for /repo before the fix 77018f3, under the stronger guard that was needed then
     (room row unchanged or newer and signed by an admin; no new group carrying user-admin entries) -/
 theorem C07_partial_beforeFixes (s : RStore) (cand : RoomNode) (g : candGuardBeforeFixes s cand = true) :
-    accept Defects.beforeFixes s cand = accept Defects.none s cand :=
+    accept Defects.beforeFixesOldestFirst s cand = accept Defects.none s cand :=
   accept_congr_beforeFixes g
 
 /-! ## 3. the code as written: witnesses of the deviations -/
@@ -282,6 +282,20 @@ theorem C07_breaks_storedDefinitionTrusted :
     (loaded polluted 10).isAdmin 2 400 = false ∧
     (loaded (stateOf (accept Defects.asImplemented polluted upd)) 10).isAdmin 2 400 = true ∧
     (loaded (stateOf (accept Defects.none polluted upd)) 10).isAdmin 2 400 = true := by
+  decide
+
+/-- **#4 the stored definition was replayed newest first — fixed in /repo f7a29ff, kept as a regression
+    witness.** After an honest update that disables user key 2 (a second entry for that key), the
+    definition read back from the tables no longer parsed ("A more recent User definition exists"):
+    the instance could not restart and no peer could import the room. Read oldest first, it parses and
+    decides as the loaded room does. -/
+theorem C07_breaks_newestFirstRead :
+    let upd := { room10 with authNodes := [{ g102 with userNodes := g102.userNodes ++ [row 160 102 300 0 (.user 2 false)],
+                                                        userEdges := g102.userEdges ++ [edge 102 101 34 160 300 0] }] }
+    let s1 := stateOf (accept Defects.asImplemented w0 upd)
+    ((readBack true s1 10).map fun rn => match rn.parse with | .ok _ => 0 | .error (.room .invalidUserDate) => 1 | .error _ => 2) = some 1 ∧
+    ((readBack false s1 10).map fun rn => match rn.parse with | .ok r => some (r.isUserValidAt 2 400) | .error _ => none) = some (some false) ∧
+    (loaded s1 10).isUserValidAt 2 400 = false ∧ (loaded s1 10).isUserValidAt 2 200 = true := by
   decide
 
 /-! ## 4. non-vacuity -/
